@@ -19,6 +19,8 @@ def requests(ctx):
     big = [gs.random_wf(rng, rng.choice([10, 40, 120, 400]), p_break=rng.choice([0.02, 0.1, 0.3]),
                         nonempty=rng.random() < 0.8) for _ in range(n_rand)]
     deep = ["(" * k + "." + ")" * k for k in (1, 50, 100, 300)] + ["(+" * k + "." + "+)" * k for k in (1, 30, 100)]
+    # more than 256 strands (strand indices beyond the small integers CPython shares), pairs inside late strands
+    deep += ["+".join(["()"] * 300), "+".join(["(.)", "."] * 140), "(" + "+".join(["()"] * 270) + ")"]
     big += deep
     # (iii) malformed stream
     bad = [gs.mutate(rng, s) for s in big for _ in range(2)]
@@ -110,6 +112,7 @@ def inverse_requests(ctx, tables):
 
 
 def run(ctx):
+    rng, quick = ctx.rng, ctx.tier == "quick"
     res = prove(ctx)
     runner = ensure_model_runner()
     diffs = []
@@ -126,6 +129,30 @@ def run(ctx):
         sub_ = inv_[: (1500 if ctx.tier == "quick" else 20000)]
         diffs += correspond(ctx, "pair_table_to_dot_bracket/one-shot-iterator", sub_,
                             impl_reqs=[("pair_table_to_dot_bracket_iter", r[1]) for r in sub_])
+    # list structures whose members are not single characters ('' / '.x' / '..'): never a legal position, whatever form
+    # `ignore` is given in (direct statement on the implementation: the model speaks about character lists only)
+    if runner.ok:
+        odd = []
+        for s_ in rng.sample(strs, min(len(strs), 300 if quick else 3000)):
+            if not s_:
+                continue
+            t_ = list(s_)
+            t_.insert(rng.randrange(len(t_) + 1), rng.choice(["", ".x", "..", "x.", "()", ".+", " "]))
+            odd.append(("make_pair_table_members", [t_, "+", rng.choice([["."], [".", "x"], ["x", "."]]), rng.choice(["default", "str", "set", "list"])]))
+        bad_odd = []
+        for rq, r in zip(odd, run_impl(odd)):
+            if not (isinstance(r, Err) and r.kind == "SecondaryStructureError"):
+                bad_odd.append({"key": {"members": rq[1]}, "input": {"members": rq[1]},
+                                "what": f"make_pair_table accepted / failed differently on a list structure with the member {[m for m in rq[1][0] if len(m) != 1]!r}: {r!r}",
+                                "snippet": f"from dsdobjects.complex_utils import make_pair_table; make_pair_table({rq[1][0]!r})  # ignore as {rq[1][3]}: {rq[1][2]!r}"})
+        ctx.cov["correspondence"]["make_pair_table/odd-members(impl)"] = {"cases": len(odd), "failures": len(bad_odd)}
+        if bad_odd and res["ok"] and not diffs:
+            for f in bad_odd[:10]:
+                ctx.violation("counterexample", f)
+            return
+        direct_odd = bad_odd
+    else:
+        direct_odd = []
     ctx.cov["rule"] = ("every string over '().+x' up to the tier's length bound, random long/deep/many-stranded "
                        "structures and single-fault mutations of them, other break/ignore characters; "
                        "non-trivial = distinct results on which model and implementation agree")
@@ -182,7 +209,7 @@ def run(ctx):
             found.append({"key": {"s": f["s"]}, "input": f, "what": f["what"],
                           "snippet": f"from dsdobjects.complex_utils import *; make_pair_table({f['s']!r}, strand_break={f['brk']!r}); "
                                      f"rotate_complex_once([c if c=='+' else 'd' for c in {f['s']!r}], list({f['s']!r}))"})
-        return pre + found
+        return pre + direct_odd + found
 
     conclude(ctx, res, runner, diffs, search)
 
@@ -192,6 +219,10 @@ def replay(data):
     if not inp:
         print("replay file names a broken proof/correspondence link only:", json.dumps(data.get("broken_links"))[:2000])
         return 1
+    if isinstance(inp, dict) and "members" in inp:
+        r = run_impl([("make_pair_table_members", inp["members"])], jobs=1)[0]
+        print(r)
+        return 0 if (isinstance(r, Err) and r.kind == "SecondaryStructureError") else 1
     if isinstance(inp, dict) and "iter_table" in inp:
         a_, b_ = run_impl([("pair_table_to_dot_bracket", inp["iter_table"]), ("pair_table_to_dot_bracket_iter", inp["iter_table"])], jobs=1)
         print(a_, b_)
